@@ -3,20 +3,44 @@
 //! (ring); the RRSIG has to carry the RFC 4034 3.1.3 label count and to verify over the data the validator
 //! reconstructs (RrsigExt::signed_data) -- for the RRset as signed, in another record order, with a decremented TTL,
 //! with the owner in another case, and as a wildcard expansion with upper-case letters in the replaced and in the
-//! kept part of the name; a changed address, a changed owner and an RRSIG of another RRset must not verify; signing
-//! the same RRset twice with the same scratch buffer gives data that still verifies.
+//! kept part of the name; a changed address, a changed owner and an RRSIG of another RRset must not verify;
+//! `sign_sorted_rrset_in` is called with one scratch buffer for a sequence of RRsets, with a buffer that is not empty
+//! on entry, and again after an attempt in which the key back end (SignRaw::sign_raw) reported an error: every RRSIG
+//! that is returned has to verify.
 use std::str::FromStr;
 
 use domain::base::iana::Class;
 use domain::base::name::ToName;
 use domain::base::{Name, Record, Ttl};
-use domain::crypto::sign::{generate, GenerateParams, KeyPair};
+use domain::base::iana::SecurityAlgorithm;
+use domain::crypto::sign::{generate, GenerateParams, KeyPair, SignError, SignRaw, Signature};
 use domain::dnssec::sign::keys::SigningKey;
 use domain::dnssec::sign::records::Rrset;
-use domain::dnssec::sign::signatures::rrsigs::sign_rrset;
+use domain::dnssec::sign::signatures::rrsigs::{sign_rrset, sign_sorted_rrset_in};
 use domain::dnssec::validator::base::RrsigExt;
 use domain::rdata::dnssec::Timestamp;
-use domain::rdata::{Mx, A};
+use domain::rdata::{Dnskey, Mx, A};
+
+/// A key back end that fails when told to (an HSM or remote signer with a transient error).
+#[derive(Debug)]
+struct Flaky {
+    inner: KeyPair,
+    fail_next: std::cell::Cell<bool>,
+}
+impl SignRaw for Flaky {
+    fn algorithm(&self) -> SecurityAlgorithm {
+        self.inner.algorithm()
+    }
+    fn dnskey(&self) -> Dnskey<Vec<u8>> {
+        self.inner.dnskey()
+    }
+    fn sign_raw(&self, data: &[u8]) -> Result<Signature, SignError> {
+        if self.fail_next.replace(false) {
+            return Err(SignError);
+        }
+        self.inner.sign_raw(data)
+    }
+}
 
 type N = Name<Vec<u8>>;
 type K = SigningKey<Vec<u8>, KeyPair>;
@@ -107,6 +131,40 @@ fn main() {
                 if rrsig.verify_signed_data(&key.dnskey(), &buf).is_err() {
                     fail(format!("{:?}: MX RRset signed at {} and answered as {} (exchange in another case) does not verify", params, owner, ans));
                 }
+            }
+        }
+    }
+    // one scratch buffer for a sequence of calls, not empty at the start, with a failing attempt in between
+    for params in [GenerateParams::Ed25519, GenerateParams::EcdsaP256Sha256] {
+        let (sec, public) = generate(&params, 256).unwrap();
+        let flaky = Flaky { inner: KeyPair::from_bytes(&sec, &public).unwrap(), fail_next: std::cell::Cell::new(false) };
+        let key: SigningKey<Vec<u8>, Flaky> = SigningKey::new(n("example."), 256, flaky);
+        let (inc, exp) = (Timestamp::from(1_000_000), Timestamp::from(2_000_000));
+        let mut scratch: Vec<u8> = b"left over from something else".to_vec();
+        let owners = ["a.example.", "b.example.", "*.c.example.", "d.example.", "e.example."];
+        for (i, owner) in owners.iter().enumerate() {
+            let mut recs = a_set(owner, 3600, 1);
+            recs.sort_by(|a, b| domain::base::cmp::CanonicalOrd::canonical_cmp(a, b));
+            if i == 3 {
+                key.raw_secret_key().fail_next.set(true);
+                if sign_sorted_rrset_in(&key, &Rrset::new_from_owned(&recs).unwrap(), inc, exp, &mut scratch).is_ok() {
+                    fail(format!("{:?}: sign_sorted_rrset_in returned Ok although the key back end reported an error", params));
+                }
+                continue;
+            }
+            let sig = match sign_sorted_rrset_in(&key, &Rrset::new_from_owned(&recs).unwrap(), inc, exp, &mut scratch) {
+                Ok(sig) => sig,
+                Err(e) => fail(format!("{:?}: sign_sorted_rrset_in fails for {}: {}", params, owner, e)),
+            };
+            let rrsig = sig.data();
+            let mut answer = a_set(owner, 3600, 1);
+            let mut buf = Vec::new();
+            rrsig.signed_data(&mut buf, answer.as_mut_slice()).unwrap();
+            if rrsig.verify_signed_data(&key.dnskey(), &buf).is_err() {
+                fail(format!(
+                    "{:?}: call {} of sign_sorted_rrset_in with one reused scratch buffer ({}; the buffer held other octets before the first call, the call for d.example. failed in the key back end): the RRSIG does not verify",
+                    params, i + 1, owner
+                ));
             }
         }
     }
